@@ -158,7 +158,7 @@ func c18Units(tier string) []*Unit {
 		dedicated := map[string]bool{"defer-same-task-parallel": true, "matrix-ref-parallel-deps": true, "dynvars-parallel": true,
 			"once-failing-two-callers": true, "c17-executor-group": true, "c17-executor-prefixed": true, "reader-sibling-includes": true, "reader-diamond-dirs-dynvar": true,
 			"shared-set-and-shopt-lists-parallel": true, "missing-tasks-resolved-in-parallel": true,
-			"prefixed-output-with-announced-commands": true,
+			"prefixed-output-with-announced-commands":  true,
 			"c17-direct-group-two-writers-per-command": true, "c17-direct-prefixed-two-writers-per-command": true}
 		heavy := map[string]bool{"c01-twolevel-cancel": true, "c01-nested-call-in-dep-N1": true, "c07-fail-nested-N2": true}
 		switch {
